@@ -10,13 +10,14 @@ from dataclasses import replace
 from typing import Any
 
 from .core import PKG, AnalysisError
-from .domain import (DEEP, AV, BOTTOM, CONFIG, CONST, ENUM, ESC, IDENT, JSONREPR, NUM, PYREPR, RAW, RAW_NONSTR,
+from .domain import (DEEP, AV, BOTTOM, CONFIG, CONST, ENUM, ESC, IDENT, JSONREPR, NONFINITE, NUM, PYREPR, RAW, RAW_NONSTR,
                      REPR_OF_ESC, UNKNOWN, WORD, Part, as_parts, concat, is_esc, join, join_all, lit, map_labels, num,
                      typed)
 from .pyindex import ClassInfo, FuncInfo, Module, PyIndex, dotted
 from .pytypes import TypeResolver
 
-NUMERIC = {"int", "float", "bool", "HTTPStatus"}
+NUMERIC = {"int", "float", "bool", "HTTPStatus", "float_noinf", "float_nonan", "float_finite"}
+MAYBE_NONFINITE = {"float", "float_noinf", "float_nonan"}   # float types for which inf / nan has not been excluded on this path
 Env = dict
 
 
@@ -608,7 +609,7 @@ class Interp:
             return BOTTOM
         x = self.finalize(x)
         if x.types and x.types <= NUMERIC:
-            return typed("str", labels=[NUM])
+            return typed("str", labels=[NUM] + ([NONFINITE] if x.types & MAYBE_NONFINITE else []))
         if "Path" in x.types:
             return replace(x, types=frozenset({"str"}))
 
@@ -648,7 +649,7 @@ class Interp:
             return BOTTOM  # strict: nothing flows here yet (early iteration / dead code)
         x = self.finalize(x)
         if x.types and x.types <= NUMERIC:
-            return typed("str", labels=[NUM])
+            return typed("str", labels=[NUM] + ([NONFINITE] if x.types & MAYBE_NONFINITE else []))
         if any(is_esc(l) for l in x.labels):
             rest = {l for l in x.labels if not is_esc(l) and l not in (CONST, NUM, ENUM, IDENT, WORD, CONFIG)}
             return typed("str", labels=[REPR_OF_ESC] + ([PYREPR] if rest else []))
@@ -993,8 +994,11 @@ class Interp:
             return self.str_of(a0) if args else lit("")
         if short == "repr" and name.startswith("builtins"):
             return self.repr_of(a0)
-        if short in ("int", "float", "bool", "len", "abs", "hash", "id", "ord", "round", "sum") and name.startswith("builtins"):
-            return num(None, short if short in ("int", "float", "bool") else "int")
+        if short == "float" and name.startswith("builtins"):
+            # float(<int>) is finite or raises OverflowError; float(<text>) / float(<float>) may be inf or nan
+            return num(None, "float_finite" if args and a0.types and a0.types <= {"int", "bool"} else "float")
+        if short in ("int", "bool", "len", "abs", "hash", "id", "ord", "round", "sum") and name.startswith("builtins"):
+            return num(None, short if short in ("int", "bool") else "int")
         if short in ("any", "all", "isinstance", "issubclass", "callable", "hasattr"):
             return num(None, "bool")
         if short in ("list", "tuple", "sorted", "reversed", "iter", "frozenset", "set") and name.startswith("builtins"):
@@ -1421,15 +1425,17 @@ class Interp:
             a, b = self.narrow(test.operand, env)
             return b, a
         if isinstance(test, ast.BoolOp):
-            if isinstance(test.op, ast.And):
-                cur = dict(env)
-                for v in test.values:
-                    cur, _ = self.narrow(v, cur)
-                return cur, f_env
+            # `a and b` is false when a is false, or a is true and b is false (and dually for `or`): the other outcome is the join of
+            # those cases, so `if isinstance(x, T) and not ok(x): return` narrows x on the fall-through as well
+            is_and = isinstance(test.op, ast.And)
             cur = dict(env)
+            other: Env | None = None
             for v in test.values:
-                _, cur = self.narrow(v, cur)
-            return t_env, cur
+                t, f = self.narrow(v, cur)
+                cur, leave = (t, f) if is_and else (f, t)
+                other = self.join_env(other, leave)
+            other = other if other is not None else (f_env if is_and else t_env)
+            return (cur, other) if is_and else (other, cur)
         if isinstance(test, ast.Call) and isinstance(test.func, ast.Name) and test.func.id == "isinstance" and len(test.args) == 2:
             tgt = test.args[0]
             key = self._narrow_key(tgt)
@@ -1440,6 +1446,21 @@ class Interp:
                     yes, no = self._split_types(cur, want)
                     t_env[key] = yes
                     f_env[key] = no
+            return t_env, f_env
+        if isinstance(test, ast.Call) and dotted(test.func) in ("math.isfinite", "isfinite", "math.isinf", "isinf", "math.isnan", "isnan") \
+                and len(test.args) == 1:
+            key = self._narrow_key(test.args[0])
+            if key is not None:
+                cur = self.ev(test.args[0], env)
+                what = dotted(test.func).rsplit(".", 1)[-1]
+                step = {"isfinite": {"float": "float_finite", "float_noinf": "float_finite", "float_nonan": "float_finite"},
+                        "isinf": {"float": "float_noinf", "float_nonan": "float_finite"},
+                        "isnan": {"float": "float_nonan", "float_noinf": "float_finite"}}[what]
+                excluded = replace(cur, types=frozenset(step.get(t, t) for t in cur.types))
+                if what == "isfinite":
+                    t_env[key] = excluded
+                else:
+                    f_env[key] = excluded
             return t_env, f_env
         if isinstance(test, ast.Compare) and len(test.ops) == 1:
             op = test.ops[0]
@@ -1537,6 +1558,8 @@ class Interp:
                             out |= self.tr.class_av(self.ix.classes[q]).types
             else:
                 out.add(d.rsplit(".", 1)[-1])
+        if "float" in out:
+            out |= {"float_noinf", "float_nonan", "float_finite"}  # the same class, with what is known about the value
         return out
 
     def _split_types(self, cur: AV, want: set[str]) -> tuple[AV, AV]:
@@ -1549,7 +1572,7 @@ class Interp:
                 no = map_labels(cur, lambda ls: {RAW_NONSTR if l == RAW else l for l in ls})
                 return yes, no
         if want <= NUMERIC and anyish:
-            return replace(cur, types=frozenset(want), labels=frozenset({NUM}), alts=None), cur
+            return replace(cur, types=frozenset(want - {"float_noinf", "float_nonan", "float_finite"}), labels=frozenset({NUM}), alts=None), cur
         if anyish:
             return replace(cur, types=frozenset(want) if not yes_t else yes_t), cur
         # a concrete (non-Any) type set disjoint from the tested classes: the branch is infeasible -> bottom
